@@ -219,6 +219,33 @@ func nestingProbe(c *driverCtx) {
 		}
 	})
 	run("timestamps", func() { sectionOp("tz.w"); sectionOp("tz.w") })
+	// a registered builder that itself builds codecs (the way the library's own builders for composite types do, and
+	// the way an application's builder for a wrapper type would): construction re-entered from inside a builder
+	run("re-entrant-builder", func() {
+		type wrapped struct {
+			V map[string]int64 `json:"v"`
+			I nestInner        `json:"i"`
+		}
+		type reent struct{ W wrapped }
+		avro.Register(reflect.TypeOf(reent{}), func(s avro.Schema, t reflect.Type, omit bool) (avro.Codec, error) {
+			inner, err := avro.SchemaForType(wrapped{})
+			if err != nil {
+				return nil, err
+			}
+			return inner.Codec(wrapped{})
+		})
+		if ws, err := avro.SchemaForType(wrapped{}); err == nil {
+			avro.RegisterSchema(reflect.TypeOf(reent{}), ws)
+		}
+		type holder struct {
+			A int64   `json:"a"`
+			R reent   `json:"r"`
+			L []reent `json:"l"`
+		}
+		if s, err := avro.SchemaForType(holder{}); err == nil {
+			s.Codec(holder{})
+		}
+	})
 }
 
 type stressRecord struct {
